@@ -31,6 +31,7 @@ Min2(a, b) == IF a < b THEN a ELSE b
 (* of the 32-bit integers (the case is then not decided)                       *)
 MAXI == 2147483647
 Fits(a, b) == a = 0 \/ b = 0 \/ Abs(a) <= MAXI \div Abs(b)       \* a * b stays inside 32 bits
+FitsHalf(a, b) == a = 0 \/ b = 0 \/ Abs(a) <= (MAXI \div 2) \div Abs(b)   \* a * b stays below 2^30 (two such products can be added)
 NaR == <<0, 0>>
 IsNaR(r) == r[2] = 0
 RECURSIVE Gcd(_, _)
@@ -56,7 +57,7 @@ RAdd(a, b) ==
   ELSE LET g  == Gcd(a[2], b[2])
            m1 == b[2] \div g
            m2 == a[2] \div g IN
-       IF ~Fits(2 * a[1], m1) \/ ~Fits(2 * b[1], m2) \/ ~Fits(a[2], m1) THEN NaR
+       IF ~FitsHalf(a[1], m1) \/ ~FitsHalf(b[1], m2) \/ ~Fits(a[2], m1) THEN NaR
        ELSE Rat(a[1] * m1 + b[1] * m2, a[2] * m1)
 RLess(a, b) == LET d == RAdd(a, RNeg(b)) IN d[1] < 0         \* a, b not NaR; small operands only
 
@@ -311,6 +312,15 @@ ComplexSub(tr) ==
   \/ (tr.t = "bin" /\ ~HasKind(tr, {"atom", "fn"}) /\ LET n == Norm(tr) IN n.ok /\ \E m \in n.ms : ~CssMono(m))
   \/ \E i \in DOMAIN tr.kids : ComplexSub(tr.kids[i])
 
+(* a min / max / clamp call one of whose arguments is numeric with a unit CSS cannot express *)
+RECURSIVE FnComplexArg(_)
+FnComplexArg(tr) ==
+  \/ (tr.t = "fn" /\ \E i \in DOMAIN tr.kids :
+          LET k == tr.kids[i]
+              n == Norm(k) IN
+          ~HasKind(k, {"atom"}) /\ n.ok /\ \E m \in n.ms : ~CssMono(m))
+  \/ \E i \in DOMAIN tr.kids : FnComplexArg(tr.kids[i])
+
 (* the dimensions of the number leaves: they are mutually compatible iff there is at most one *)
 RECURSIVE LeafMonos(_)
 LeafMonos(tr) == (IF tr.t = "num" /\ tr.u # "" THEN {UnitMono(tr.u)} ELSE {})
@@ -390,7 +400,8 @@ Checks(inToks, st, outToks) ==
 
 (* deviations: the failing checks they explain on this observation *)
 CalcDevs == {"calc_lhs_paren_dropped", "calc_div_div_paren_dropped", "calc_complex_unit_number_printed",
-             "calc_paren_division_not_simplified", "clamp_unknown_percent_simplified"}
+             "calc_paren_division_not_simplified", "clamp_unknown_percent_simplified",
+             "minmax_complex_unit_operand_decided"}
 Covers(d, inToks, st, outToks) ==
   LET tin == ParseValue(inToks)
       nin == Norm(tin) IN
@@ -418,6 +429,10 @@ Covers(d, inToks, st, outToks) ==
        IF tin.t = "bin" /\ tin.op = "/" /\ n >= 5 /\ inToks[2].k = "lp" /\ inToks[n - 1].k = "rp"
           /\ tout.t # "fail" /\ TreeNear(tin, tout)
        THEN {"not_simplified"} ELSE {}
+  ELSE IF d = "minmax_complex_unit_operand_decided" THEN
+       (* min()/max()/clamp() with an operand whose unit is a product or quotient (px*%, px/%) is decided although  *)
+       (* such a value cannot be compared with a length: min(50% * 2px, 1px) and max(50% * 2px, 1px) both give 1px  *)
+       IF FnComplexArg(tin) THEN {"different_value", "different_structure"} ELSE {}
   ELSE IF d = "clamp_unknown_percent_simplified" THEN
        (* clamp() whose arguments mix an unknown unit and % is decided although they cannot be compared *)
        LET tout == ParseValue(outToks) IN
